@@ -116,6 +116,12 @@ func (c *Ctx) runPath(pi *PkgInfo, fo *types.Func, fd *ast.FuncDecl, ct *Contrac
 			if classify(o.Type()) == TRef || classify(o.Type()) == TCell {
 				c.assume(Lt(IntLit(0), v.T)) // receivers are non-nil (A-DOM)
 			}
+			// a non-nil *T whose type no other struct embeds is a whole object: its dynamic type is *T
+			if pt, ok := o.Type().(*types.Pointer); ok {
+				if nt, ok := pt.Elem().(*types.Named); ok && len(c.E.embedders(nt)) == 0 {
+					c.assume(Eq(App(SInt, "dyntype", v.T), IntLit(int64(c.E.typeTag(namedKey(nt))))))
+				}
+			}
 			bind(o, v)
 		}
 	}
@@ -353,6 +359,9 @@ func (e *Engine) ProveLemma(pi *PkgInfo, lm *Lemma) *FuncResult {
 	res := &FuncResult{Name: pi.Name + ".lemma." + lm.Name, Pkg: pi.Name}
 	if lm.Axiom {
 		res.Trusted = "axiom"
+		if lm.Definition {
+			res.Trusted = "definition of a spec function (conservative)"
+		}
 		return res
 	}
 	c := e.newCtx(pi, res.Name)
